@@ -1221,3 +1221,77 @@ def ord10b_worker_leaves_only_on_terminate(P, R, L, rule="ORD-10b"):
     R.check(rule, WORKER_LOOP + "|thread-ends-only-on-terminate", ok, "src/compaction/worker.rs",
             "from a received task the thread's return is reached only over the Terminate arm of the match on the task kind",
             "ok" if ok else "recv sites %d, Terminate edges %d, returns reachable without Terminate: %s" % (len(recvs), len(term_edges), bad[:2]))
+
+
+# ------------------------------------------------------------------------------------------- PAIR-6 (own batch) a follower's own batch joins the group
+def pair6b_appended_batch_is_the_writers_own(P, R, L, rule="PAIR-6"):
+    """build_group_commit_batch: inside the grouping loop the batch that is appended to the group and the writer that becomes the
+    group's last writer are taken from the SAME queue entry - the item the loop's iterator just yielded.  (`first_writer.maybe_batch()`
+    in the loop appends the leader's batch once more for every follower and drops the followers' batches, which are then
+    acknowledged with the group's Ok.)"""
+    from ..rules import in_cycle
+    fn = "db::DB::build_group_commit_batch"
+    b = P.body(fn)
+    if b is None:
+        return R.missing_anchor(rule, fn)
+    R.analysed(b)
+    apps = [c for c in b.calls() if not b.is_cleanup(c.bb) and (c.name or "").endswith("Batch::append_batch") and in_cycle(b, c.bb)]
+
+    def item_sources(op, depth=8):
+        """does the operand derive from the item of an iterator `next()` call inside the loop?"""
+        todo, seen = [op], set()
+        for _ in range(depth):
+            nxt = []
+            for x in todo:
+                for o in origins(b, x):
+                    if o.kind == "call" and o.site is not None:
+                        if _last(o.name) == "next" and in_cycle(b, o.site.bb):
+                            return True
+                        if o.site.bb not in seen:
+                            seen.add(o.site.bb)
+                            nxt += [a for a in o.site.args[:1]]
+            todo = nxt
+        return False
+    bad = [c.t.get("line") for c in apps if not item_sources(c.args[1])]
+    R.check(rule, fn + "|appended-batch-is-the-queued-writers-own", bool(apps) and not bad, "src/db.rs",
+            "the batch appended inside the grouping loop derives from the queue entry the loop's iterator yielded",
+            "ok (%d append sites in the loop)" % len(apps) if apps and not bad else "append at line %s takes its batch from somewhere else" % bad[:2])
+
+
+# ------------------------------------------------------------------------------------------- PAIR-9 (chain) the boundary search continues from the largest key
+def pair9c_boundary_search_continues_from_the_largest_key(P, R, L, rule="PAIR-9"):
+    """CompactionManifest::add_boundary_inputs: the boundary search (`find_smallest_boundary_file(level files, key)`: the file that
+    starts with later versions of `key`'s user key) is keyed by the LARGEST key of the input set, and after a boundary file was
+    added it continues from THAT file's largest key - every definition of the search key derives from find_largest_key(..) or
+    from FileMetadata::largest_key().  Continuing from the smallest key of the file just added stops the chain after one link:
+    older versions of a user key stay behind in level L while newer ones move to L + 1."""
+    from .. import role
+    fn = "compaction::manifest::CompactionManifest::add_boundary_inputs"
+    b = P.body(fn)
+    if b is None:
+        return R.missing_anchor(rule, fn)
+    R.analysed(b)
+    finds = [c for c in b.calls() if not b.is_cleanup(c.bb) and (c.name or "").endswith("find_smallest_boundary_file")]
+    bad, n = [], 0
+    for c in finds:
+        for l in roots(b, c.args[1]):
+            for d in b.defs().get(l, []):
+                if b.is_cleanup(d[1]):
+                    continue
+                if d[0] == "stmt":
+                    rv = d[3]["rv"]
+                    ops = rv.get("ops", [])
+                    os_ = [o for op in ops for o in origins(b, op, transparent=role.COLOUR_TRANSPARENT)] if ops else (origins(b, rv["pl"], transparent=role.COLOUR_TRANSPARENT) if rv["k"] == "ref" else [])
+                elif d[0] == "call":
+                    os_ = origins(b, {"l": l, "p": []}, transparent=role.COLOUR_TRANSPARENT)
+                else:
+                    continue
+                calls = {_last(o.name) for o in os_ if o.kind == "call"}
+                if not calls:
+                    continue
+                n += 1
+                if not (calls & {"largest_key", "find_largest_key"}) or (calls & {"smallest_key"}):
+                    bad.append("line %s: the search key derives from %s" % ((d[3].get("line") if d[0] == "stmt" else d[3].get("line")), sorted(calls)))
+    R.check(rule, fn + "|boundary-search-keyed-by-largest-keys", bool(finds) and n > 0 and not bad, "src/compaction/manifest.rs",
+            "every definition of the key handed to find_smallest_boundary_file derives from find_largest_key / largest_key()",
+            "ok (%d definitions)" % n if finds and n and not bad else "; ".join(bad) or "no definition found")
